@@ -16,7 +16,12 @@ inductive Expr where
   | emptyTuple                            -- ()
   deriving Repr, Inhabited, BEq
 
-def dotted (s : String) : List String := s.splitOn "."
+/-- split at dots (`str.split(".")`); structural, so that closed examples reduce in the kernel -/
+def splitDotsAux : List Char → List Char → List (List Char)
+  | [], cur => [cur.reverse]
+  | c :: cs, cur => if c == '.' then cur.reverse :: splitDotsAux cs [] else splitDotsAux cs (c :: cur)
+
+def dotted (s : String) : List String := (splitDotsAux s.toList []).map String.ofList
 
 /-- `typ.__module__ + "." + typ.__qualname__`, builtins unqualified, NoneType as `None` -/
 def clsExpr (nm : Names) (c : ClassId) : Expr :=
